@@ -59,7 +59,7 @@ def run_impl(data, ops, full_bytes, size):
     """drive a real LasReader; every returned record block is located in the file's full point array"""
     import laspy
     outs = []
-    with laspy.open(io.BytesIO(data)) as rd:
+    with laspy.open(io.BytesIO(data), laz_backend=() if data[104] & 0x80 else None) as rd:
         iters = {}
         for op in ops:
             try:
@@ -140,7 +140,16 @@ def run(ck):
                 evlrs = fio.rand_vlrs(ck.rng, True) if minor >= 4 else None
                 las = fio.make_las(ck.rng, minor, fmt, count, evlrs=evlrs)
             buf = io.BytesIO()
-            las.write(buf)
+            if count == 0 and key[1] == 3:
+                # no point, flagged compressed (LasZip record among the VLRs): nothing has to be decompressed to read it
+                las = fio.make_las(ck.rng, minor, fmt, 0, evlrs=None, vlrs=[("laszip encoded", 22204, "", bytes(34))])
+                las.write(buf)
+                flagged = bytearray(buf.getvalue())
+                flagged[104] |= 0x80
+                buf = io.BytesIO(bytes(flagged))
+                ck.count("empty_file_flagged_compressed")
+            else:
+                las.write(buf)
             files[key] = (buf.getvalue(), las.points.array.tobytes(), las.header.point_format.size, minor, fmt)
         data, full, size, minor, fmt = files[key]
         inp = {"kind": "history", "count": count, "minor": minor, "fmt": fmt, "ops": [tok(o) for o in ops]}
